@@ -40,15 +40,23 @@ class Shape:
     """layers: directory of each layer; mainname; ddirs: drop-in directories (relative to the layer dir);
     call(h, cb): script line reading the tree into handle h."""
 
-    def __init__(self, name, nlay=3, opts=""):
+    def __init__(self, name, nlay=3, opts="", sfx="conf"):
         self.name = name
         self.nlay = nlay
         self.opts = opts          # further items of the option string (JOIN_SAME_ENTRIES=1, PYTHON_STYLE=1): no effect on these trees
+        self.sfx = sfx            # the suffix in play: every "conf" of the file, directory and argument names is replaced by it
+
+    def rn(self, s):
+        return s if self.sfx == "conf" else s.replace("conf", self.sfx)
 
     def optx(self, s):
         return hx(self.opts + ";" + s if self.opts else s)
 
     def layout(self, R):
+        layers, mainname, ddirs = self._layout(R)
+        return layers, (self.rn(mainname) if mainname else mainname), [self.rn(d) for d in ddirs]
+
+    def _layout(self, R):
         n = self.name
         std3 = [R + "/usr/lib/prj", R + "/run/prj", R + "/etc/prj"]
         flat3 = [R + "/usr/lib", R + "/run", R + "/etc"]
@@ -80,7 +88,7 @@ class Shape:
         if self.name.endswith("_rel"):
             return ["chdir %s" % hx(R)]       # relative directory arguments: the callback must see the relative paths
         if self.name == "set_conf_dirs":
-            return ["setconfdirs %s %s" % (hx(".conf.d"), hx("/conf.d"))]
+            return ["setconfdirs %s %s" % (hx(self.rn(".conf.d")), hx(self.rn("/conf.d")))]
         if self.name == "config_dirs_over_global":
             # the object's own CONFIG_DIRS list has priority over the process-wide list: the directories of the global list
             # hold decoy files that must not be read
@@ -105,45 +113,48 @@ class Shape:
         dc = "%s %s" % (hx(delim), hx(comment))
         if n == "std":
             return ["newopt %d %s" % (h, self.optx("ROOT_PREFIX=" + R)),
-                    "readconfig%s %d %s %s %s %s %s" % (c, h, hx("prj"), hx("/usr/lib"), hx("cfg"), hx("conf"), dc)]
+                    "readconfig%s %d %s %s %s %s %s" % (c, h, hx("prj"), hx("/usr/lib"), hx("cfg"), hx(self.sfx), dc)]
         if n == "dotsuffix":
             return ["newopt %d %s" % (h, self.optx("ROOT_PREFIX=" + R)),
-                    "readconfig%s %d %s %s %s %s %s" % (c, h, hx("prj"), hx("/usr/lib"), hx("cfg"), hx(".conf"), dc)]
+                    "readconfig%s %d %s %s %s %s %s" % (c, h, hx("prj"), hx("/usr/lib"), hx("cfg"), hx("." + self.sfx), dc)]
         if n == "noproject":
             return ["newopt %d %s" % (h, self.optx("ROOT_PREFIX=" + R)),
-                    "readconfig%s %d - %s %s %s %s" % (c, h, hx("/usr/lib"), hx("cfg"), hx("conf"), dc)]
+                    "readconfig%s %d - %s %s %s %s" % (c, h, hx("/usr/lib"), hx("cfg"), hx(self.sfx), dc)]
         if n == "nosuffix":
             return ["newopt %d %s" % (h, self.optx("ROOT_PREFIX=" + R)),
                     "readconfig%s %d %s %s %s - %s" % (c, h, hx("prj"), hx("/usr/lib"), hx("cfg"), dc)]
         if n == "noname":
             return ["newopt %d %s" % (h, self.optx("ROOT_PREFIX=" + R)),
-                    "readconfig%s %d %s %s - %s %s" % (c, h, hx("prj"), hx("/usr/lib"), hx("conf"), dc)]
+                    "readconfig%s %d %s %s - %s %s" % (c, h, hx("prj"), hx("/usr/lib"), hx(self.sfx), dc)]
         if n == "parsing_dirs":
             dirs = ":".join(R + "/p%d" % i for i in range(1, self.nlay + 1))
             return ["newopt %d %s" % (h, self.optx("PARSING_DIRS=" + dirs)),
-                    "readconfig%s %d %s %s %s %s %s" % (c, h, hx("prj"), hx("/usr/lib"), hx("cfg"), hx("conf"), dc)]
+                    "readconfig%s %d %s %s %s %s %s" % (c, h, hx("prj"), hx("/usr/lib"), hx("cfg"), hx(self.sfx), dc)]
         if n in ("config_dirs", "config_dirs_over_global"):
-            return ["newopt %d %s" % (h, self.optx("CONFIG_DIRS=.conf.d:.d;ROOT_PREFIX=" + R)),
-                    "readconfig%s %d %s %s %s %s %s" % (c, h, hx("prj"), hx("/usr/lib"), hx("cfg"), hx("conf"), dc)]
+            return ["newopt %d %s" % (h, self.optx("CONFIG_DIRS=" + self.rn(".conf.d") + ":.d;ROOT_PREFIX=" + R)),
+                    "readconfig%s %d %s %s %s %s %s" % (c, h, hx("prj"), hx("/usr/lib"), hx("cfg"), hx(self.sfx), dc)]
         if n == "set_conf_dirs":
             return ["newopt %d %s" % (h, self.optx("ROOT_PREFIX=" + R)),
-                    "readconfig%s %d %s %s %s %s %s" % (c, h, hx("prj"), hx("/usr/lib"), hx("cfg"), hx("conf"), dc)]
+                    "readconfig%s %d %s %s %s %s %s" % (c, h, hx("prj"), hx("/usr/lib"), hx("cfg"), hx(self.sfx), dc)]
         if n in ("readdirs", "readdirscb"):
-            return ["readdirs%s %d %s %s %s %s %s" % ("cb" if (cb or n == "readdirscb") else "", h, hx(R + "/usr/etc"), hx(R + "/etc"), hx("cfg"), hx("conf"), dc)]
+            return ["readdirs%s %d %s %s %s %s %s" % ("cb" if (cb or n == "readdirscb") else "", h, hx(R + "/usr/etc"), hx(R + "/etc"), hx("cfg"), hx(self.sfx), dc)]
         if n in ("readhist", "readhistcb"):
-            return ["%s %d %s %s %s %s %s" % (n, h, hx(R + "/usr/etc"), hx(R + "/etc"), hx("cfg"), hx(".conf"), dc)]
+            return ["%s %d %s %s %s %s %s" % (n, h, hx(R + "/usr/etc"), hx(R + "/etc"), hx("cfg"), hx("." + self.sfx), dc)]
         if n == "readdirscb_rel":
-            return ["readdirscb %d %s %s %s %s %s" % (h, hx("usr/etc"), hx("etc"), hx("cfg"), hx("conf"), dc)]
+            return ["readdirscb %d %s %s %s %s %s" % (h, hx("usr/etc"), hx("etc"), hx("cfg"), hx(self.sfx), dc)]
         if n == "readhistcb_rel":
-            return ["readhistcb %d %s %s %s %s %s" % (h, hx("usr/etc"), hx("etc"), hx("cfg"), hx(".conf"), dc)]
+            return ["readhistcb %d %s %s %s %s %s" % (h, hx("usr/etc"), hx("etc"), hx("cfg"), hx("." + self.sfx), dc)]
         if n in ("rc2", "rc2cb"):
             return ["newopt %d %s" % (h, self.optx("PARSING_DIRS=%s/usr/etc:%s/etc" % (R, R))),
-                    "readconfig%s %d %s - %s %s %s" % ("cb" if n == "rc2cb" else "", h, hx("prj"), hx("cfg"), hx("conf"), dc)]
+                    "readconfig%s %d %s - %s %s %s" % ("cb" if n == "rc2cb" else "", h, hx("prj"), hx("cfg"), hx(self.sfx), dc)]
         if n == "readdirs_nulldist":
-            return ["readdirs%s %d - %s %s %s %s" % (c, h, hx(R + "/etc"), hx("cfg"), hx("conf"), dc)]
+            return ["readdirs%s %d - %s %s %s %s" % (c, h, hx(R + "/etc"), hx("cfg"), hx(self.sfx), dc)]
         if n in ("readfile", "readfilecb"):
             return ["readfile%s %d %s %s" % ("cb" if n == "readfilecb" else "", h, hx(R + "/single/cfg.conf"), dc)]
         raise ValueError(n)
+
+
+SUFFIXES = ["conf", "ini", "cfg2x"]
 
 
 def materialise(tree, shape, R, contents=None, pd=None):
@@ -168,7 +179,7 @@ def materialise(tree, shape, R, contents=None, pd=None):
             paths[p] = (i, 0)
         for n in tree["drop"][i - 1]:
             dd = ddirs[(pd or {}).get((i, n), 1) - 1]
-            p = d + "/" + dd + "/" + NAMES[n]
+            p = d + "/" + dd + "/" + shape.rn(NAMES[n])
             data = (contents or {}).get((i, n))
             if tree.get("dnull") and n in tree["dnull"][i - 1]:
                 s.append("symlink %s %s" % (hx("/dev/null"), hx(p)))       # a drop-in switched off by a link to /dev/null
@@ -248,8 +259,12 @@ def tree_text(t):
 def replay_trees(exe, recs, shape, verdict, pid, check_log=True, check_order=False):
     cases = []
     metas = []
+    shape0 = shape
     for i, r in enumerate(recs):
         R = ROOT + "/t%d" % (i % 16)
+        # the suffix in play rotates from case to case (conf, ini, cfg2x: different lengths): consecutive layered reads of one
+        # process must not remember anything about the previous call's suffix
+        shape = Shape(shape0.name, shape0.nlay, shape0.opts, sfx=SUFFIXES[i % len(SUFFIXES)])
         t = {"main": r["main"], "drop": r["drop"], "shp": r["shp"], "dnull": r.get("dnull")}
         pdmap = {(l, n): r["pd"][l - 1][n - 1] for l in range(1, len(r["drop"]) + 1) for n in r["drop"][l - 1]} if r.get("pd") else None
         if pdmap and len(shape.layout(R)[2]) < 2:
@@ -258,6 +273,7 @@ def replay_trees(exe, recs, shape, verdict, pid, check_log=True, check_order=Fal
         s = shape.pre(R) + s + shape.decoys(R) + shape.call(1, R, cb=True) + ["dump 1", "free 1"] + shape.post()
         cases.append((i, s))
         metas.append((t, paths))
+    shape = shape0
     res = core.run_cases(exe, cases)
     n_ok = 0
     for i, r in enumerate(recs):
